@@ -24,9 +24,9 @@ M = "black_it.utils.time_series"
 
 
 def run(ctx: Context) -> None:
-    hp(ctx)
-    wrappers(ctx)
-    moments(ctx)
+    ctx.rule(hp)
+    ctx.rule(wrappers)
+    ctx.rule(moments)
 
 
 def hp(ctx: Context) -> None:
